@@ -132,6 +132,19 @@ def exhaustive(tier):
     for enc in ("base64", "hex"):
         for n in list(range(0, 131, 1 if tier != "quick" else 3)) + [57, 58, 76, 77, 114, 115, 171, 172, 300, 1000]:
             yield {"spec": {"kind": "bytes", "req": False, "opts": {"encoding": enc}, "validator": None}, "value": bytes((7 * i + n) % 256 for i in range(n))}
+    # secrets of every encoded length up to 70 bytes and a few longer ones (keys are 32 bytes, cipher blocks 16), per
+    # method, in 1-, 2- and 4-byte characters, on their own and as items / values of typed containers
+    lengths = list(range(1, 71, 1 if tier != "quick" else 2)) + [31, 32, 33, 47, 48, 49, 63, 64, 65, 95, 96, 97, 127, 128, 129, 255, 256, 257, 1000]
+    for method in ("best", "aes", "xor"):
+        sec = {"kind": "secure", "req": False, "opts": {"method": method}, "validator": None}
+        for n in lengths:
+            for unit in ("s", "\u00e9", "\U0001f511"):
+                text = "".join(chr((ord(unit) + i % 7)) for i in range(max(1, n // len(unit.encode()))))
+                yield {"spec": sec, "value": text}
+        for n in (1, 32, 33, 64, 65, 100):
+            text = "".join(chr(97 + i % 26) for i in range(n))
+            yield {"spec": {"kind": "list", "req": False, "opts": {}, "validator": None, "item": sec}, "value": [text, "short", text[::-1]]}
+            yield {"spec": {"kind": "dict", "req": False, "opts": {}, "validator": None, "keyf": leaf("str"), "valuef": sec}, "value": {"a": text, "b": "short"}}
     for exists in (None, False, True, "dir", "file"):
         for name in specs.FS_NAMES + [""]:
             for startdir in ("$ROOT/fs", "$ROOT/fs/sub"):
